@@ -80,6 +80,25 @@ def _method(args):
         store.store_metadata("meta-only", paths["doc"])  # metadata arrived before the object: the pid is unknown
         store.store_metadata("meta-only", paths["doc"], "fmt")
         store.store_object(None, paths["data2"])  # an unreferenced object
+        # a pid whose delete_object was hit by I/O errors when it finally unlinked its '*_delete' marker files: whatever the
+        # call left behind is part of the store now, and the pid is unknown - looking it up must not touch that either
+        with open(paths["data"] + ".gone", "wb") as f:
+            f.write(b"content of the pid that was deleted under faults")
+        store.store_object("gone-with-leftovers", paths["data"] + ".gone")
+        store.store_metadata("gone-with-leftovers", paths["doc"])
+        real_remove, real_unlink = os.remove, os.unlink
+
+        def failing(p, *a, **k):
+            if str(p).endswith("_delete"):
+                raise OSError(5, "Input/output error (injected)", str(p))
+            return real_remove(p, *a, **k)
+        os.remove = os.unlink = failing
+        try:
+            store.delete_object("gone-with-leftovers")
+        except Exception:  # noqa: BLE001
+            pass
+        finally:
+            os.remove, os.unlink = real_remove, real_unlink
     if populated:
         # the instance has already served every supported algorithm in several spellings
         for a in common.ALL_ALGOS:
@@ -88,6 +107,11 @@ def _method(args):
         store.store_object("warm", paths["doc"], additional_algorithm="SHA3-256", checksum_algorithm="sha3_512",
                            checksum=__import__("hashlib").sha3_512(b"<doc/>").hexdigest())
     g = grammar(paths)[method]
+    if populated and "unknown-pid" in g["bad"].get("pid", ()):
+        from ..absx import Layout
+        if not os.path.exists(os.path.join(root, Layout().pid_ref_path("gone-with-leftovers"))):
+            # unknown indeed (decided from the layout, not by asking the store): its leftovers must survive every look-up
+            g["bad"]["pid"] = list(g["bad"]["pid"]) + ["gone-with-leftovers"]
     res, n, classes = [], 0, set()
     before = snapshot(root)
     params = list(g["bad"])
